@@ -755,6 +755,96 @@ func c08SharedCode(n int, seed int64) string {
 // mutates the module's globals and the objects they hold (list, dict, class, through a function of the
 // module) and observes them: every context must see what it sees when it is the only one, sequentially
 // and on n goroutines at once, and the heap walk must find the contexts disjoint.
+// c08SameName: n contexts whose sys.path name DIFFERENT directories (k of them), each directory holding a module of the
+// SAME name with different content: every context must import the file of ITS OWN search path (value, __file__), whatever
+// the other contexts imported before or import at the same moment.  Expected V: "own".
+func c08SameName(n int, seed int64) string {
+	root, err := os.MkdirTemp("", "c8same")
+	if err != nil {
+		panic(err)
+	}
+	defer os.RemoveAll(root)
+	k := 2 + int(seed%3) // 2..4 directories
+	mod := "c8dup"
+	dirs := make([]string, k)
+	for d := 0; d < k; d++ {
+		dirs[d] = fmt.Sprintf("%s/d%d", root, d)
+		if err := os.MkdirAll(dirs[d], 0o755); err != nil {
+			panic(err)
+		}
+		body := fmt.Sprintf("val = %d\nlst = [%d]\ndef where():\n    return %d\n", 100+d, d, d)
+		if err := os.WriteFile(dirs[d]+"/"+mod+".py", []byte(body), 0o644); err != nil {
+			panic(err)
+		}
+	}
+	forms := []string{"import c8dup\no(c8dup.val)\no(c8dup.where())\no(c8dup.lst)\n", "from c8dup import val, where\no(val)\no(where())\n",
+		"from c8dup import *\no(val)\no(lst)\n", "import c8dup as q\nq.lst.append(9)\no(q.val)\no(q.lst)\n"}
+	newCtx := func(i int) *c08Ctx {
+		c := &c08Ctx{id: i}
+		c.ctx = py.NewContext(py.ContextOpts{SysPaths: []string{dirs[i%k]}})
+		c08Install(c)
+		return c
+	}
+	codes := make([]*py.Code, n)
+	want := make([]string, n)
+	for i := 0; i < n; i++ {
+		d := i % k
+		switch (i + int(seed)) % len(forms) {
+		case 0:
+			want[i] = fmt.Sprintf("%d,%d,[%d]", 100+d, d, d)
+		case 1:
+			want[i] = fmt.Sprintf("%d,%d", 100+d, d)
+		case 2:
+			want[i] = fmt.Sprintf("%d,[%d]", 100+d, d)
+		case 3:
+			want[i] = fmt.Sprintf("%d,[%d,9]", 100+d, d)
+		}
+		codes[i] = c08Compile(forms[(i+int(seed))%len(forms)])
+	}
+	var bad []string
+	for _, gmp := range []int{0, 1, 4, 16} { // 0 = one after the other
+		cs := make([]*c08Ctx, n)
+		for i := range cs {
+			cs[i] = newCtx(i)
+		}
+		if gmp == 0 {
+			for i := range cs {
+				cs[i].run(codes[i])
+			}
+		} else {
+			old := runtime.GOMAXPROCS(gmp)
+			var wg sync.WaitGroup
+			for i := range cs {
+				wg.Add(1)
+				go func(i int) {
+					defer wg.Done()
+					cs[i].run(codes[i])
+				}(i)
+			}
+			wg.Wait()
+			runtime.GOMAXPROCS(old)
+		}
+		for i, c := range cs {
+			if got := strings.Join(c.trace, ","); got != want[i] {
+				bad = append(bad, fmt.Sprintf("gmp%d ctx%d(dir%d) got [%s] want [%s]", gmp, i, i%k, got, want[i]))
+			}
+		}
+		if verdict, slots, paths, _ := c08Disjoint(cs); verdict != "disjoint" {
+			bad = append(bad, fmt.Sprintf("gmp%d walk=%s:%s %s", gmp, verdict, slots, strings.Join(paths, " ; ")))
+		}
+		for _, c := range cs {
+			c.ctx.Close()
+		}
+	}
+	if len(bad) > 0 {
+		if len(bad) > 4 {
+			bad = bad[:4]
+		}
+		return "FOREIGN:" + strings.Join(bad, " / ")
+	}
+	return "own"
+}
+
 func c08SrcFile(n int, seed int64) string {
 	dir, err := os.MkdirTemp("", "c8file")
 	if err != nil {
@@ -898,6 +988,9 @@ func c08Case(line string) (string, string) {
 	}
 	if strings.HasPrefix(head[0], "C:srcfile") {
 		return c08SrcFile(n, seed), ""
+	}
+	if strings.HasPrefix(head[0], "C:samename") {
+		return c08SameName(n, seed), ""
 	}
 	var steps []c08Step
 	cache := map[string]*py.Code{}
